@@ -32,7 +32,7 @@ RULE += (' Also: a manager whose enter calls pop_all() on the stack it is being 
 RULE += (' Also: plain callables returning the awaitable of an asynchronous exit, pushed.')
 RULE += (' Also: enters failing with a BaseException that is not an Exception.')
 RULE += (' Also: managers whose exit is a staticmethod / classmethod.')
-RULE += (' Also: callbacks (plain and async def) registered without any arguments and returning a true value.')
+RULE += (' Also: callbacks (plain and async def) registered without any arguments and returning a true value; plain callbacks handing back a future-like (non-coroutine) awaitable.')
 RULE += (' Also: exit-only objects (no matching enter) pushed, also callable ones.')
 ASSUMPTIONS = ["nested async with/with statements of the running interpreter are the reference for routing",
                "__context__ chains are not compared"]
@@ -52,7 +52,10 @@ KINDS_EXTRA = KINDS + ["dualcm", "dualpush", "scmpush", "acmpush",
                        "xaexit", "xexit", "xexit_callable",
                        # callbacks registered WITHOUT any arguments (plain / async def): what they return is still
                        # nobody's business - they can never suppress
-                       "cb0", "acb0"]  # ...push: a manager object pushed, never entered
+                       "cb0", "acb0",
+                       # a plain callable handing back an awaitable that is NOT a coroutine (a future-like job object):
+                       # an asynchronous callback like any other - its job is awaited when the stack unwinds
+                       "wcb", "wcb"]  # ...push: a manager object pushed, never entered
 BEHS = ["falsy", "truthy", "raise", "raise_if_exc"]
 # sampled in addition to the enumerated behaviours: exits that raise a BaseException which is not an Exception
 BEHS_EXTRA = BEHS + ["raise_base", "raise_base_if_exc", "reraise_same", "reraise_same",
@@ -325,6 +328,27 @@ def mk_entry(kind, beh, i, log, susp, choice, shared=None):
         return lambda et, ev, tb: aexit2(et, ev, tb)
     if kind == "spush":
         return exit_logic
+    if kind == "wcb":
+        class Job:
+            def __init__(self, args, kw):
+                self.args, self.kw = args, kw
+
+            def __await__(self):
+                log.append(("cb", i, self.args, tuple(self.kw.items())))
+                if susp:
+                    yield from Suspend(("cb", i), susp).__await__()
+                if beh in ("raise", "raise_if_exc"):
+                    raise E(f"c{i}")
+                if beh.startswith("raise_base"):
+                    raise EB(f"cb{i}")
+                if beh.startswith("raise_std:"):
+                    raise STD[beh.split(":")[1]](f"cs{i}")
+                return True
+
+        def wcb(*args, **kw):
+            return Job(args, kw)
+
+        return wcb
     if kind == "acb0":
         async def acb(*args, **kw):
             log.append(("cb", i, args, tuple(kw.items())))
@@ -421,6 +445,17 @@ def run_stack(case, stats):
 
                 async def __aexit__(self, *x):
                     return e(*x)
+
+            async with W():
+                await nest(i + 1)
+        elif k == "wcb":
+            class W:
+                async def __aenter__(self):
+                    pass
+
+                async def __aexit__(self, *x):
+                    await e(i, kw=i, callback=i, self=i)
+                    return False
 
             async with W():
                 await nest(i + 1)
